@@ -1126,6 +1126,10 @@ func (data *Data) Clone() *Data {
 
 	other.Databases = data.CloneDatabases()
 	other.Users = data.CloneUsers()
+	// Node lists are updated in place (UpdateDataNode, sort after append), so
+	// the copy must not share their backing arrays with the original.
+	other.MetaNodes = append([]NodeInfo(nil), data.MetaNodes...)
+	other.DataNodes = append([]NodeInfo(nil), data.DataNodes...)
 
 	return &other
 }
@@ -1745,6 +1749,10 @@ func (rpi *RetentionPolicyInfo) unmarshal(pb *internal.RetentionPolicyInfo) {
 // clone returns a deep copy of rpi.
 func (rpi RetentionPolicyInfo) clone() RetentionPolicyInfo {
 	other := rpi
+
+	if rpi.Subscriptions != nil {
+		other.Subscriptions = append([]SubscriptionInfo(nil), rpi.Subscriptions...)
+	}
 
 	if rpi.ShardGroups != nil {
 		other.ShardGroups = make([]ShardGroupInfo, len(rpi.ShardGroups))
